@@ -273,7 +273,7 @@ def compare(ctx: Ctx, actual_q: str, ref_name: str, what: str, *, decorated=Fals
                f"{what}: decorator differs: {first_difference(da, dr)}", lhs=mfa, rhs=mfr)
 
 
-def _soft_verdict(ctx, prog, key, where, what, pa, pr, ga, gr, nf):
+def _soft_verdict(ctx, prog, key, where, what, pa, pr, ga, gr, nf, nf_plain=None):
     """SOFT comparison: pieces are matched by equal normal form first, then by label; only
     atomic differences (constant / operator / library function / keyword / variable / dropped
     effect) on structurally identical pieces are reported.  Anything else: no verdict."""
@@ -281,6 +281,16 @@ def _soft_verdict(ctx, prog, key, where, what, pa, pr, ga, gr, nf):
     nr = [(l, nf(t, True)) for l, t in pr]
     na.append(("guards", tuple((tuple(nf(c, False) for c in conds if c[0] != "in-loop"), _exc_class(e)) for conds, e in ga)))
     nr.append(("guards", tuple((tuple(nf(c, True) for c in conds if c[0] != "in-loop"), _exc_class(e)) for conds, e in gr)))
+    # the decision-tree normal form orders conditions canonically: one edited condition can reorder the whole
+    # tree.  Atomic deviations are therefore also looked for on the forms *before* that reordering.
+    plain_a, plain_r = {}, {}
+    if nf_plain is not None:
+        pl_a = [(l, nf_plain(t, False)) for l, t in pa]
+        pl_r = [(l, nf_plain(t, True)) for l, t in pr]
+        pl_a.append(("guards", tuple((tuple(nf_plain(c, False) for c in conds if c[0] != "in-loop"), _exc_class(e)) for conds, e in ga)))
+        pl_r.append(("guards", tuple((tuple(nf_plain(c, True) for c in conds if c[0] != "in-loop"), _exc_class(e)) for conds, e in gr)))
+        plain_a = {id(x[1]): y[1] for x, y in zip(na, pl_a, strict=True)}
+        plain_r = {id(x[1]): y[1] for x, y in zip(nr, pl_r, strict=True)}
     used = set()
     pairs = []
     rest_a = []
@@ -300,6 +310,8 @@ def _soft_verdict(ctx, prog, key, where, what, pa, pr, ga, gr, nf):
         best = None
         for i, (l2, r) in enumerate(cands):
             d = atomic_diffs(a, r, l)
+            if d is None and id(a) in plain_a and id(r) in plain_r:
+                d = atomic_diffs(plain_a[id(a)], plain_r[id(r)], l)
             if d is not None and (best is None or len(d) < len(best[1])):
                 best = (i, d)
         if best is None:
@@ -898,7 +910,9 @@ def compare_factory(ctx: Ctx, actual_q: str, ref_name: str, what: str, *, soft: 
     pr, gr = pieces(fr, ref_q, cr, "r", ir)
     ctx.count("kernels")
     if soft:
-        _soft_verdict(ctx, prog, key, where, what, pa, pr, ga, gr, lambda t, is_ref: hoist(norm(prep(t, idx_a if not is_ref else idx_r, is_ref))))
+        _soft_verdict(ctx, prog, key, where, what, pa, pr, ga, gr,
+                      lambda t, is_ref: hoist(norm(prep(t, idx_a if not is_ref else idx_r, is_ref))),
+                      lambda t, is_ref: norm(prep(t, idx_a if not is_ref else idx_r, is_ref)))
         return
     if [l for l, _ in pa] != [l for l, _ in pr]:
         ctx.undecided(key, f"{what}: loop structure / loop-carried names differ from the reference", where)
@@ -1019,6 +1033,26 @@ def atomic_diffs(a, b, path="", out=None):
             if x[0] == "op" and len(x) == 5 and x[1] in _VALUE_OPS and dict(x[2]).get("a") == y:
                 out.append(f"{path}: the value {word} {x[1]}")
                 return out
+        # the reviewed value wrapped in / stripped of a one-argument call: tuple(x) vs x, set(x) vs x
+        for x, y, word in ((a, b, "is additionally passed through"), (b, a, "is no longer passed through")):
+            if x[0] == "call" and len(x) == 4 and len(x[2]) == 1 and not x[3] and x[2][0] == y and x[1][0] == "glob":
+                out.append(f"{path}: the value {word} {x[1][1]}(...)")
+                return out
+        # `x | y` (normal form: ordered merge) against `x & y` (normal form: commutative and)
+        if {a[0], b[0]} == {"bar", "op"} and sorted(map(repr, _merge_leaves(a))) == sorted(map(repr, _merge_leaves(b))) \
+                and len(_merge_leaves(a)) > 1:
+            out.append(f"{path}: operator {'|' if b[0] == 'op' else '&'} instead of {'&' if b[0] == 'op' else '|'}")
+            return out
+        # x.m() against x  (e.g. d.values() where the reviewed form iterates d)
+        for x, y, word in ((a, b, "additionally goes through"), (b, a, "no longer goes through")):
+            if x[0] == "call" and len(x) == 4 and not x[2] and not x[3] and x[1][0] == "attr" and x[1][1] == y:
+                out.append(f"{path}: the value {word} .{x[1][2]}()")
+                return out
+        # an in-place update whose normal form is a merge (update / |=) replaced by another in-place method
+        for x, y in ((a, b), (b, a)):
+            if x[0] == "mut" and len(x) == 5 and y[0] in ("bar", "cat") and y[1] and y[1][0] == x[1]:
+                out.append(f"{path}: in-place method .{x[2]}() {'instead of' if x is a else 'replaced by'} a merge/extend")
+                return out
         # a negated condition / swapped branches
         if a == ("not", b) or b == ("not", a) or a == ("unop", "not", b) or b == ("unop", "not", a):
             out.append(f"{path}: condition negated")
@@ -1096,6 +1130,15 @@ def atomic_diffs(a, b, path="", out=None):
         return out
     out.append(f"{path}: {a!r} instead of {b!r}")
     return out
+
+
+def _merge_leaves(t):
+    """Operands of a (possibly nested) chain of `|` (normal form 'bar') and `&` (normal form op/and)."""
+    if is_term(t) and t[0] == "bar" and len(t) == 2:
+        return [z for x in t[1] for z in _merge_leaves(x)]
+    if is_term(t) and t[0] == "op" and len(t) == 3 and t[1] == "and":
+        return [z for x in t[2] for z in _merge_leaves(x)]
+    return [t]
 
 
 def _local_difference(n_sites, size):
